@@ -24,9 +24,9 @@ pub struct Atom {
     pub searches: Vec<u64>,
 }
 
-pub const KINDS: [&str; 26] = [
+pub const KINDS: [&str; 28] = [
     "down", "loop_if", "loop_or", "loop_iferror", "loop_optor", "map", "map_down", "nth", "take_while", "skip_until", "gen_len", "gen_map_len", "gen_get",
-    "seq_eq", "binom", "multinom", "multinom3", "loop_optopt", "gen_windows", "gen_filter", "nth_back", "seq_cmp", "seq_to_str", "seq_hash", "regex_miss", "regex_scan",
+    "seq_eq", "binom", "multinom", "multinom3", "loop_optopt", "gen_windows", "gen_filter", "nth_back", "seq_cmp", "seq_to_str", "seq_hash", "regex_miss", "regex_scan", "err_arg_first", "err_arg_last",
 ];
 
 const PRIME: u128 = 1_000_003;
@@ -343,6 +343,31 @@ pub fn atom(kind: &str, k: usize, n: u64) -> Atom {
             height: 0,
             tail: 0,
             searches: vec![n],
+        },
+        // a user call whose FIRST argument is an error: the call is not made (it yields the error), but every
+        // argument is evaluated first - the later argument's n + 1 calls are made, counted and framed
+        "err_arg_first" => Atom {
+            kind: "err_arg_first",
+            param: n,
+            decl: format!("fn v_s{k}(v_a: int, v_b: int)->int{{ v_a + v_b }}\nfn v_q{k}(v_n: int)->int{{ if(v_n == 0, 0, 1 + v_q{k}(v_n - 1)) }}"),
+            expr: format!("if_error(v_s{k}(error(\"e\"), v_q{k}({n})), {n})"),
+            value: ni,
+            calls: n + 1,
+            height: n + 1,
+            tail: 0,
+            searches: vec![],
+        },
+        // the same with the error in the LAST argument of a lambda (natives differ: they stop at their first error argument)
+        "err_arg_last" => Atom {
+            kind: "err_arg_last",
+            param: n,
+            decl: format!("fn v_q{k}(v_n: int)->int{{ if(v_n == 0, 0, 1 + v_q{k}(v_n - 1)) }}"),
+            expr: format!("if_error(((v_a: int, v_b: int)->{{ v_a + v_b }})(v_q{k}({n}), error(\"e\")), {n})"),
+            value: ni,
+            calls: n + 1,
+            height: n + 1,
+            tail: 0,
+            searches: vec![],
         },
         // regex search: one search step per byte an anchored attempt reads. "a" over n b's: each of the n start
         // offsets reads one byte and dies (the offset at the end reads none)
